@@ -28,6 +28,8 @@ func (c05) Gen(rng *rand.Rand, tier string, k int) *Case {
 		c.Shape = ShapeGlitch
 	} else if rng.Intn(12) == 0 {
 		c.Shape = ShapeLateStart
+	} else if rng.Intn(12) == 0 {
+		c.Shape = ShapeCloseOnly
 	}
 	if rng.Intn(12) == 0 {
 		c.Variant = 3 // every non-period parameter (thresholds included) zero
